@@ -15,7 +15,8 @@
  * Every case runs in a forked child with the iteration hook H4 installed.  Events (one JSON object per line):
  *   Reset{id,site,kind,rank,rlo,npc,noise,cblk,nproc,offl,sc,den,hist,nr,nc}   start of a case (exact rank etc. as computed by TLC, passed through)
  *   Start{site,pc,tcls}                              first pass of component pc: class of the start vector
- *   Iter{site,pc,it,a,b,conv}                        pass `it` of component pc: classes of t't (u'u), of the normaliser, of the convergence value
+ *   Iter{site,pc,it,a,b,conv,cq[3],cqp[3]}           pass `it` of component pc: classes of t't (u'u), of the normaliser, of the convergence value; cq / cqp =
+ *                                                     3-limb codes (vcode3) of the convergence value of this pass and of the pass before it
  *                                                     (passes 1..3 and the last pass of every component are logged)
  *   Null{site,pc}                                    component pc was returned without a single pass (null-component guard)
  *   Done{site,evals[],vx[],nf[],fin,ortho,recon,vsum,vgap,bvar} the fit returned: per component explained variance vx (1e-12 percent units, saturating) and
@@ -53,9 +54,15 @@ static double VAR_ZERO = 1e-9;      /* routing only (field `evals`): the verdict
 /* ---------- hook H4: own callback (LVCalc reports the pass index, not the latent variable, in `comp`) ---------- */
 static const char *h_site = ""; static long h_pc = -1, h_it = 0, h_lv = -1;
 static int h_mute = 0; static long h_mute_it = 0;      /* warm-up fits of an in-process history: counted against the budget, not logged */
-static struct { int valid; long it; char a[8], b[8], c[8]; } pend;
+static struct { int valid; long it; char a[8], b[8], c[8]; long cq[3], cqp[3]; } pend;
+static double h_conv = 0.0;         /* convergence value of the previous pass of the current component */
+/* every Iter line carries the convergence value of the pass (cq) and of the pass before it (cqp) as order-preserving 3-limb codes of the doubles */
+static void emit_iter(const char *site, long pc, long it, const char *a, const char *b, const char *c, const long *cq, const long *cqp){
+  VRT_EMIT("{\"e\":\"Iter\",\"site\":\"%s\",\"pc\":%ld,\"it\":%ld,\"a\":\"%s\",\"b\":\"%s\",\"conv\":\"%s\",\"cq\":[%ld,%ld,%ld],\"cqp\":[%ld,%ld,%ld]}",
+           site, pc, it, a, b, c, cq[0], cq[1], cq[2], cqp[0], cqp[1], cqp[2]);
+}
 static void flush_pending(void){
-  if(pend.valid){ VRT_EMIT("{\"e\":\"Iter\",\"site\":\"%s\",\"pc\":%ld,\"it\":%ld,\"a\":\"%s\",\"b\":\"%s\",\"conv\":\"%s\"}", h_site, h_pc, pend.it, pend.a, pend.b, pend.c); pend.valid = 0; }
+  if(pend.valid){ emit_iter(h_site, h_pc, pend.it, pend.a, pend.b, pend.c, pend.cq, pend.cqp); pend.valid = 0; }
 }
 static void fill_gap(const char *site, long from, long to){   /* components from..to-1 were returned without a pass */
   for(long k = from; k < to; k++){
@@ -85,11 +92,12 @@ static void iter_cb(const char *site, size_t comp, double a, double b, double co
     VRT_EMIT("{\"e\":\"Start\",\"site\":\"%s\",\"pc\":%ld,\"tcls\":\"%s\"}", s, c, t);
   }
   h_it++;
+  long cq[3], cqp[3]; vcode3(conv, cq); vcode3(h_it == 1 ? conv : h_conv, cqp); h_conv = conv;
   if(h_it <= 3 || h_it >= budget){
-    VRT_EMIT("{\"e\":\"Iter\",\"site\":\"%s\",\"pc\":%ld,\"it\":%ld,\"a\":\"%s\",\"b\":\"%s\",\"conv\":\"%s\"}", s, c, h_it, vcls(a), vcls(b), vcls(conv));
+    emit_iter(s, c, h_it, vcls(a), vcls(b), vcls(conv), cq, cqp);
     pend.valid = 0;
   }
-  else{ pend.valid = 1; pend.it = h_it; strcpy(pend.a, vcls(a)); strcpy(pend.b, vcls(b)); strcpy(pend.c, vcls(conv)); }
+  else{ pend.valid = 1; pend.it = h_it; strcpy(pend.a, vcls(a)); strcpy(pend.b, vcls(b)); strcpy(pend.c, vcls(conv)); memcpy(pend.cq, cq, sizeof cq); memcpy(pend.cqp, cqp, sizeof cqp); }
   if(h_it >= budget){
     VRT_EMIT("{\"e\":\"Diverge\",\"site\":\"%s\",\"pc\":%ld,\"it\":%ld}", s, c, h_it);
     fflush(NULL);
